@@ -5,12 +5,19 @@ import vlib
 MANIFEST = dict(
     module="XmlIn", ref="§5 C06",
     text="XmlIn.tla describes an input as a token string over the reader's element alphabet (start/end/empty tags and character "
-         "data, placed grammatically or not, with usual / missing / unusable attributes) inside one of 24 contexts (every parse "
-         "loop of the reader), one mutation of the main part (truncation after and inside every token, dropped / duplicated / "
+         "data, placed grammatically or not, with usual / missing / unusable attributes) inside one of 52 contexts (every container "
+         "of the alphabet = every token loop of the reader as it is now, incl. the loops below a floating picture: positions and "
+         "their text, the polygon / extent carrying wrap kinds, the vertex list of a wrap polygon, frame and picture locks, picture "
+         "parts, and the border / margin / grid / tab / numbering lists; XmlIn_MC ASSUMEs that the contexts are grammatical paths "
+         "and that no container is without one), one mutation of the main part (truncation after and inside every token, dropped / duplicated / "
          "swapped tags, second root, wrong root, strict / absent / default / re-declared namespace, prolog variants, bad entity, "
          "control character, invalid UTF-8, empty / absent / non-XML part, nesting depth, sibling count, text and attribute size) "
          "and one deviation of the package (any other part empty / truncated / text / binary / foreign root / attribute-less / "
-         "self-referential / absent; 15 ZIP-level shapes; Open(file), OpenFromMemory, failing reader), and the property as the "
+         "self-referential / absent; 15 ZIP-level shapes; 68 lies of the archive directory = a structurally sound archive in which "
+         "the header of the main part / the styles / the media entry / every entry declares an uncompressed or compressed size "
+         "of zero, one less, one more, 2^32-2, 2^62 (zip64) or 2^63+n (zip64, negative as int64), a wrong or zero checksum, or a "
+         "method the data were not stored with, the declared value being a function of the true one given by the specification; "
+         "Open(file), OpenFromMemory, failing reader), and the property as the "
          "relation Allowed: Open returns an error or a document; on a document each of 38 battery calls (all read accessors, table "
          "row/column/merge/format edits on every table incl. nested ones, paragraph and page setters, header/footer, images, lists, "
          "notes, TOC, template rendering, RemoveParagraphAt, ToBytes, Save) returns within the limit, and a save that returns nil "
@@ -29,33 +36,42 @@ LEVEL = "model_checking"
 RULE = ("inputs = (context, token string, mutation, package deviation, entry point) built by the state machine XmlIn_MC: "
         "exhaustively (TLC BFS) every token string of the stated node/depth/oddity budgets in every context x {no mutation}, "
         "every context path x every mutation kind at every position, one-element strings x every truncation / tag mutation, "
-        "package deviations x ZIP shapes x entry points, the extreme sizes in a supervised child; plus seeded random larger "
+        "package deviations x ZIP shapes x entry points, every lie of the archive directory x entry point, the extreme sizes in a "
+        "supervised child (the quick tier visits the 28 lower contexts with two of the five unusual attribute classes and a third "
+        "of them with the position-dependent mutations, rotating with the seed); plus seeded random larger "
         "products (TLC -simulate). Each input is written as bytes by hand, opened, and on a document the full battery of calls is "
         "made; every call's outcome (value / error / recovered panic with its site / death / overrun) and the independent "
         "reader's verdict on every saved main part are judged against XmlIn!Allowed by XmlIn_Trace.tla")
 
-Q_GROUPS = ["q-place1", "q-place2", "q-mut0", "q-mut1", "q-pkg", "q-extreme"]
-T_GROUPS = [["t-place2", "t-mut0", "t-pkg"], ["t-place3", "t-mut1", "t-mut2"], ["t-odd2"], ["t-extreme"]]
+Q_GROUPS = ["q-place1", "q-place1n", "q-place2", "q-mut0", "q-mut0n", "q-mut1", "q-pkg", "q-ziplie", "q-extreme"]
+T_GROUPS = [["t-place2", "t-mut0", "t-pkg", "t-ziplie"], ["t-place3", "t-mut1", "t-mut2"], ["t-odd2", "t-place2n", "t-mut0n", "t-mut1n"], ["t-extreme"]]
 BOUNDS = {
-    "q-place1": "24 contexts x <= 1 generated element over the whole alphabet (100 names), <= 1 oddity (ungrammatical placement of one of 15 names, or attribute class none/word/negative/large/2^31), no mutation, full battery",
+    "q-place1": "24 upper contexts x <= 1 generated element over the whole alphabet (125 names), <= 1 oddity (ungrammatical placement of one of 15 names, or attribute class none/word/negative/large/2^31), no mutation, full battery",
+    "q-place1n": "28 lower contexts (property lists, floating-picture and picture-part loops) x <= 1 generated element over the whole alphabet, <= 1 oddity (ungrammatical placement of one of 7 names, or two of the five unusual attribute classes, rotating with the seed), no mutation",
     "q-place2": "10 main contexts x exactly 2 generated elements over 22 names, <= 1 ungrammatical placement, no mutation",
-    "q-mut0": "24 context paths x every mutation kind (29) x every position",
-    "q-mut1": "24 contexts x one grammatical element of 22 names x every truncation and every dropped end tag",
+    "q-mut0": "24 upper context paths x every mutation kind (29) x every position",
+    "q-mut0n": "a third of the 28 lower context paths (rotating with the seed) x truncation after / inside every token, every dropped / duplicated / swapped tag",
+    "q-mut1": "24 upper contexts x one grammatical element of 22 names x every truncation and every dropped end tag",
     "q-pkg": "contexts body, tc x (10 parts x 8 breaks + 15 ZIP shapes x 3 entry points), full battery",
+    "q-ziplie": "68 lies of the archive directory (4 fields x their value classes x entry main / styles / media / all) x Open(file), OpenFromMemory",
     "q-extreme": "contexts tc, r x one element of {p, t, tbl, text} x nesting depth 2000 / 8000 siblings / 8000-byte text and attribute / 1000 attributes on every element",
-    "t-place2": "24 contexts x <= 2 generated elements over the whole alphabet (100 names), <= 1 oddity (attribute classes none/2^31), 4 text classes",
+    "t-place2": "24 upper contexts x <= 2 generated elements over the whole alphabet (125 names), <= 1 oddity (attribute classes none/2^31), 4 text classes",
+    "t-place2n": "28 lower contexts x <= 2 generated elements over the whole alphabet, <= 1 oddity (ungrammatical placement of one of 7 names, attribute classes none/2^31), text classes plain/cdata",
     "t-place3": "10 main contexts x exactly 3 generated elements (depth <= 3) over 22 names, <= 1 ungrammatical placement",
     "t-odd2": "10 main contexts x exactly 2 generated elements over 22 names, <= 2 oddities (attribute classes none/2^31), text classes plain/pi/space",
-    "t-mut0": "24 context paths x every mutation kind x every position x with/without standard siblings x memory/file",
-    "t-mut1": "24 contexts x one grammatical element of 22 names x every mutation kind x every position",
+    "t-mut0": "24 upper context paths x every mutation kind x every position x with/without standard siblings x memory/file",
+    "t-mut0n": "28 lower context paths x every mutation kind (29) x every position",
+    "t-mut1": "24 upper contexts x one grammatical element of 22 names x every mutation kind x every position",
+    "t-mut1n": "28 lower contexts x one grammatical element of the whole alphabet x every truncation, every dropped / duplicated / swapped tag",
     "t-mut2": "10 main contexts x two grammatical elements of 22 names x every truncation and every dropped end tag",
     "t-pkg": "5 contexts x (10 parts x 8 breaks + 15 ZIP shapes x 3 entry points) x with/without standard siblings, full battery",
+    "t-ziplie": "contexts body, tc x 68 lies of the archive directory x Open(file), OpenFromMemory, full battery",
     "t-extreme": "contexts tc, r, bsdt x one element of {p, t, tbl, text} x nesting depth 30000 / 40000 siblings, bytes of text, bytes of attribute, 5000 attributes on every element",
 }
 
 
 def gencfg(ctx, name, groups):
-    return ctx.cfg(name, "SpecGen", {"Groups": set(groups)}, invariants=["Emit"])
+    return ctx.cfg(name, "SpecGen", {"Groups": set(groups), "Rot": ctx.seed % 3}, invariants=["Emit"])
 
 
 def account(ctx, cases, obs):
@@ -70,7 +86,7 @@ def account(ctx, cases, obs):
         ctxs[o["ctx"]] = ctxs.get(o["ctx"], 0) + 1
         grps[o["grp"]] = grps.get(o["grp"], 0) + 1
         pk = o["pk"]
-        k = "zip=%s" % pk["zip"] if pk["zip"] != "ok" else ("%s=%s" % (pk["part"], pk["brk"]) if pk["part"] != "none" else "entry=%s" % pk["entry"])
+        k = "ziplie=%s-%s" % (pk["lie"]["fld"], pk["lie"]["val"]) if pk["lie"]["fld"] != "none" else "zip=%s" % pk["zip"] if pk["zip"] != "ok" else ("%s=%s" % (pk["part"], pk["brk"]) if pk["part"] != "none" else "entry=%s" % pk["entry"])
         pks[k] = pks.get(k, 0) + 1
     outs = cov.setdefault("call_outcomes", {})
     opens = cov.setdefault("open_outcomes_by_input_class", {})
@@ -130,8 +146,10 @@ def pipeline(ctx, replay_case=None):
         "48 tables incl. nested ones",
         "nothing is demanded about which inputs Open accepts (a well-formed input may be refused, an ill-formed one accepted: the "
         "latter is recorded under observations_not_judged); text survival is C03/C04's",
-        "the ZIP layer is the standard library's: ZIP-level shapes are enumerated, random byte damage ('noise') is a small seeded "
-        "supplement",
+        "the ZIP layer is the standard library's: ZIP-level shapes and lies of the directory (one field of one entry or of every "
+        "entry, local header and central directory agreeing with each other) are enumerated, random byte damage ('noise') is a "
+        "small seeded supplement; memory is bounded only by the worker's address-space limit (an allocation the lie provokes "
+        "counts when it kills the worker or overruns the time limit)",
     ]
     if replay_case is not None:
         execute(ctx, [replay_case], "replay", pend, shards=1)
